@@ -112,9 +112,27 @@ def analyse_one(prog, module, clsname, rep):
     for ev in disp:
         m = ev["method"]
         w = "%s@%d" % (where, ev.line)
-        rep.check(m in tasks.POOL_BLOCKING, "R-C20-c", w, "pooled dispatch re-raises", "pool.%s blocks and re-raises the first worker exception" % m,
-                  "pool.%s does not propagate a worker's exception to the caller of calculate" % m,
-                  witness={"history": "pooled mode: callback raises in a worker, calculate returns"})
+        kind = tasks.pool_kind(prog, module, clsname, ev["recv"])
+        if kind == "executor" and m == "map":
+            # Executor.map submits at once but hands back a lazy iterator: a worker's exception is raised only when the
+            # result that carries it is fetched; leaving the with-block waits for the tasks and drops the exceptions
+            consumed = False
+            res = ev["result"]
+            for e2 in info.top:
+                if e2.kind == "call" and e2.seq > ev.seq and e2["name"] in ("builtins.list", "builtins.tuple", "builtins.sum") and res in e2["args"]:
+                    consumed = True
+            for lid, li in I.loopinfo.items():
+                if li.get("iter") == res and li.get("kind") == "for" and li.get("fi") is info.fi:
+                    consumed = True
+            rep.check(consumed, "R-C20-c", w, "pooled dispatch re-raises", "Executor.map whose results are fetched (list / for): the first worker exception is re-raised there",
+                      "concurrent.futures Executor.map returns a lazy iterator that nothing consumes: the tasks run (the with-block waits for them) but an exception raised inside a task - the interrupt - is never re-raised, and calculate returns normally",
+                      witness={"history": "pooled mode: the callback raises in a worker, calculate returns a result whose interrupted sub-cubes were never filled"})
+        elif kind is None and m in tasks.POOL_BLOCKING:
+            rep.undecided("R-C20-c", w, "pooled dispatch re-raises", "the class of the pool object is not resolved: whether .%s blocks and re-raises is not known" % m)
+        else:
+            rep.check(m in tasks.POOL_BLOCKING, "R-C20-c", w, "pooled dispatch re-raises", "pool.%s blocks and re-raises the first worker exception" % m,
+                      "pool.%s does not propagate a worker's exception to the caller of calculate" % m,
+                      witness={"history": "pooled mode: callback raises in a worker, calculate returns"})
         pool = ev["recv"]
         in_with = any(w_["var"] == pool or w_["ctx"] == pool for w_ in info.withs)
         rep.check(in_with, "R-C20-c", w, "the pool is closed by a with-statement", "", "the pool object is not managed by a with: it stays open after an interrupt")
